@@ -11,6 +11,8 @@ CLAIMED = {
          "Trusted: Coq kernel/VM, hand-written model of compare.go, harness; exactness of Go's int->float64 conversion on the claimed range; no axioms (Print Assumptions: closed).", None),
  "C09": ("Coq theorems for ARBITRARY byte strings as selectors and arbitrary JSON-like documents: the model of selector.go never panics (every Go index/slice/assertion is a checked primitive), parse(print a) = a on the full documented grammar, model = README denotation, wrong shape / out of range => error; model tied to the code by three generated streams (grammar walks, fault injection, raw bytes) comparing outcome, value, ParseSelector tokens and document purity.",
          "Trusted: Coq kernel/VM, hand transcription of the three regexps and of strings/strconv helpers, fmt/ParseFloat oracles (exact on a class, OutOfModel elsewhere), harness. Thunk data and user-registered top-level functions are outside the model. Print Assumptions: only primitive float/int63 declarations.", None),
+ "C17": ("Coq theorems over ARBITRARY byte strings and lexical documents of any length/nesting: DoubleQuotesToBackTick turns exactly the double-quoted identifiers into backtick identifiers and copies every byte of string literals / backtick identifiers; FixIdiomaticArray is fully characterised ([ -> ARRAY( , ] -> ) outside quotes iff balanced, else error - never a panic); the two rewrites commute; Wrapped = {root: input}; for ANY parser/engine the PG+idiomatic spelling under the options runs the same text as the canonical spelling. Tie: rewritten text vs. model and spec on exhaustive short strings, random documents and bytes, plus metamorphic Exec comparison on the real engine for all 8 option sets.",
+         "Trusted: Coq kernel/VM, hand-written scanner models of processors.go, the lexical-document spec (Spec/LexDoc.v), harness. The parser/engine is an arbitrary function in C17_meaning / C17_wrapped. 14 theorems closed under the global context, 2 list only PrimFloat.float.", None),
 }
 
 NOT_YET = "check not built yet in this round (work in progress; planned as Coq proof + correspondence per DESIGN.md)"
